@@ -986,7 +986,7 @@ static int ec_glob(char *loc, char *cmd, char *arg, char *txt)
 				verif_emit(sb);
 			}
 #endif
-			if (ex_exec(s))
+			if (ex_exec(s) || xquit)
 				break;
 			i = MIN(i, xrow);
 		}
@@ -1415,7 +1415,7 @@ static int ex_exec(char *ln)
 		return 1;
 	}
 	depth++;
-	while (*ln) {
+	while (*ln && !xquit) {
 		char *txt = NULL;
 		int idx;
 		ln = ex_loc(ln, loc);
